@@ -31,7 +31,7 @@ try:
     shutil.copy(os.path.join(VERIF, 'seeded', seed, 'demo.py'), os.path.join(tmp, 'demo.py'))
     d = subprocess.run(['/venv/bin/python', 'demo.py'], cwd=tmp, capture_output=True, text=True, timeout=600)
     print('demo on twin: rc=%d %s' % (d.returncode, (d.stdout.strip().splitlines() or [''])[-1][:100]))
-    diff = subprocess.run(['diff', '-ru', 'orig/pynetdicom2', 'pynetdicom2'], cwd=tmp, capture_output=True, text=True).stdout
+    diff = subprocess.run(['diff', '-ruN', '-x', '__pycache__', '-x', '*.pyc', 'orig/pynetdicom2', 'pynetdicom2'], cwd=tmp, capture_output=True, text=True).stdout
     out = []
     for l in diff.splitlines(True):
         if l.startswith('diff -ru'):
